@@ -234,7 +234,7 @@ func c13cases(rng *rand.Rand, thorough bool) (main, sub, controls []c13case) {
 	} else {
 		fixed := []int{1, 2, 5, 10, 20, 50, 100, 250, 500, 1000}
 		for _, cb := range c13variants {
-			for _, t := range []int{1, 5, 20, 50, 100, 250, 500, 1000, 1 + rng.Intn(1500)} {
+			for _, t := range []int{1, 5, 20, 50, 100, 250, 500, 1000, 1001 + rng.Intn(500)} {
 				main = append(main, c13case{Transport: cb.tr, Op: cb.op, Pattern: cb.pat, Variant: cb.variant, TimeoutNS: ms(t)})
 			}
 		}
